@@ -138,7 +138,7 @@ TOKS = ["none", "exact", "wrong", "prefix", "suffix", "case", "empty", "S3cret-T
 def random_auth(rng, n):
     out = []
     for _ in range(n):
-        lines = ["reset token=1 pow=%d cap=%d" % (rng.choice([0, 0, 4]), rng.choice([64, 256]))]
+        lines = ["reset token=1 pow=%d cap=%d%s" % (rng.choice([0, 0, 4]), rng.choice([64, 256]), rng.choice(["", "", " toklen=256", " toklen=300", " toklen=512", " toklen=1"]))]
         stored = []
         for _ in range(rng.randint(4, 14)):
             tok = rng.choice(TOKS) if rng.random() < 0.75 else "exact"
@@ -161,6 +161,13 @@ def random_auth(rng, n):
             lines.append(ln)
         if rng.random() < 0.5:
             lines.append("req cmd=STOP tok=exact pos=%s" % rng.choice(["0", "1", "last"]))
+        out.append(lines)
+    # long tokens: presented values whose length differs from the configured one by a multiple of 256
+    for toklen in (256, 300, 512):
+        lines = ["reset token=1 pow=0 cap=64 toklen=%d" % toklen]
+        for cmd in ("STORE", "FETCH-OUT", "FETCH-STREAM", "STOP"):
+            for tok, tv in (("prefix", 3), ("prefix", 4), ("suffix", 4), ("suffix", 5), ("prefix", 0)):
+                lines.append("req cmd=%s tok=%s c=1 tv=%d pos=1 perm=0%s" % (cmd, tok, tv, " ttl=600 path=1" if cmd == "STORE" else " foreign=1" if cmd.startswith("FETCH") else ""))
         out.append(lines)
     return out
 
